@@ -187,6 +187,27 @@ PROPS = {
                        "the first GNU/NT_GNU_BUILD_ID note of the PT_NOTE segments as an independent note lister finds it, the fall-back id is 16 bytes, "
                        "the SONAME equals the string at the last DT_SONAME offset of the dynamic table as an independent lister finds it.",
     },
+    "C08": {
+        "rule": "live dumps of targets that load 1 … 4 generated module files (ELF images built from a specification: 32/64 bit, either byte order, with / "
+                "without build-id note, program headers, section headers, SONAME, segment bias; all-zero identifiers; non-ELF files; an ELF stored at offset "
+                "4096 of an archive) under names with spaces, non-ASCII characters and .so.N version suffixes, mapped whole, split in r / r-x segments, with a "
+                "reserved gap, from a non-zero offset, read-write, some unlinked after mapping; entry point inside the executable, inside a loaded module or "
+                "nowhere; 0 … 2 caller-supplied mappings that cover a module, its first page only, the same range, an enclosing range or an unrelated one. "
+                "The expected list is computed by the model from /proc/<pid>/maps (C13 model), the effective auxiliary vector and the ELF model applied to the "
+                "files (slice mode) and to the memory image rebuilt from the map lines (process mode). Distinct = (#modules, #caller mappings, tag set).",
+        "expected_tags": ["id.memory", "id.file", "id.none", "id.unusable", "soname.memory", "soname.file", "soname.none", "mapping.nonzero-offset",
+                          "mapping.contained", "mapping.uninteresting", "entry.swapped", "entry.first", "entry.unlisted", "users", "version.some", "ref.checked", "ref.unlisted"],
+        "theorem_namespace": "Mod.",
+        "trusted_base": ["the ELF model (C14) supplies the readers' answers; the C13 model supplies the aggregated mappings",
+                         "PathBuf push / pop / set_file_name / file_name as transcribed for absolute, normalised mapping names (tied to std by these runs only)",
+                         "the memory image of a module is rebuilt from its file and the map lines (pages of private file mappings that nobody wrote to)"],
+        "assumptions": ["caller-supplied mappings that partially overlap a module necessarily overlap it in the list: the no-overlap statement is for target-derived modules",
+                        "caller-supplied mappings name files that do not exist (a name that exists and has a SONAME is renamed by the same rule as any module)"],
+        "explanation": "C08 theorems over the Lean model of the module-list logic (sections/mappings.rs, is_interesting, is_contained_in, effective path, entry-point swap): "
+                       "a target mapping is listed iff it is interesting, not wholly inside a caller-supplied mapping and has a usable identifier; listed modules are "
+                       "the aggregated mappings' hulls in order, hence pairwise disjoint (from the C13 theorems) and without duplicates; the module holding the entry "
+                       "point comes first; the name rule; caller-supplied mappings follow verbatim. The readers' answers are those of the C14 model.",
+    },
     "C17": {
         "rule": "live: MemReader::for_virtual_mem / for_file / for_ptrace (target ptrace-stopped) on ranges inside, ending exactly at, and crossing the end of "
                 "pattern regions (address-derived fill) followed by an unmapped page, a PROT_NONE page or another readable page; lengths 1 … 70000 dense near "
